@@ -13,6 +13,8 @@ QUICK = [
     ("rebind3", {"Fam": "<- FamRebind3", "LitPool": "<- Lits1", "Names": "<- Names2", "BinOps": "<- Ops1", "MaxN": "1",
                  "MaxStk": "1", "MaxStmts": "3"}, None),
     ("conlet", dict([f for f in c01.QUICK if f[0] == "conlet"][0][1]), None),    # annotated lets bind once as well
+    ("resparam", {"Fam": "<- FamFuncBody", "LitPool": "<- Lits1", "Names": "<- Names2", "SigPool": "<- SigsRes",
+                  "BinOps": "<- Ops1", "MaxN": "4", "MaxStk": "2", "MaxCtx": "2", "MaxStmts": "2"}, None),   # parameters named env / self
     ("scopemod", {"Fam": "<- FamScopeMod", "LitPool": "<- Lits2", "Names": "<- Names3", "BinOps": "<- Ops2",
                   "FldNames": "<- Flds2", "Prelude": "<- PreData", "MaxN": "6", "MaxStk": "2", "MaxCtx": "2",
                   "MaxStmts": "2", "MaxModStmts": "2"}, (1500, 60)),
